@@ -134,7 +134,7 @@ for _w in WITNESSES:
 
 LEMMAS = {}
 UNVERIFIED = {
-    "C01": ["parse_toplevel_items_from_span's callers (LSP/JSON clients supply offset/end_offset): lex_between's precondition `offset is a char boundary, offset <= end_offset <= len` is pushed to them and not checked there",
+    "C01": ["parse_toplevel_items_from_span's callers: lex_between's precondition `offset is a char boundary, offset <= end_offset <= len` is pushed to them; the two JSON-session handlers that take the offsets from a request establish it (unit reqspan, C09); the other callers pass 0 and the length of the text, 0 and the start offset of an expression of the same text (extract_function.rs), or offsets found by searching the text for code-block fences (run_code_blocks.rs)",
             "checks.rs / checks/type_checker.rs / format.rs / main.rs dispatch: a panic introduced there is not seen",
             "native stack overflow on deeply nested input"],
     "C23": ["positions produced by the parser other than through Position::merge; runtime exception positions; LSP conversions",
